@@ -235,17 +235,17 @@ def check(run, prog, tier):
                             raise AnalysisError(f"{parse.qual}: slice bound {show(b)} is not linear; point evaluation is not exact")
 
     # ------------------------------------------------------------------ L5 datagram loop
-    _datagram_loop(run, prog, parse)
+    _datagram_loop(run, prog, parse, tier)
 
 
-def _datagram_loop(run, prog, parse):
+def _datagram_loop(run, prog, parse, tier="quick"):
     BASE = "sd.SOMEIPDatagramProtocol"
     dr = prog.lookup_method(BASE, "datagram_received")
     if dr is None:
         raise AnalysisError(f"{BASE}.datagram_received has vanished")
     run.analysed(dr)
     eng = engine(prog, NoInline())
-    eng.policy.unroll = 3
+    eng.policy.unroll = 4 if tier == "thorough" else 3
     data = P(dr, param_at(dr, 0, "data"))
     addr = P(dr, param_at(dr, 1, "addr"))
     mc = P(dr, param_at(dr, 2, "multicast"))
